@@ -356,6 +356,24 @@ Section Algebra.
     rewrite factor_zero. field; nzs.
   Qed.
 
+  Lemma nondim_ext m e e' : (forall j, (j < U)%nat -> e j = e' j) -> nondim m e = nondim m e'.
+  Proof.
+    intros H. unfold Units.nondim.
+    assert (Ec : conv e = conv e') by (apply prodn_ext; intros j Hj; now rewrite H).
+    assert (Ed : forall i, dimof e i = dimof e' i) by (intros i; apply sumZ_ext; intros j Hj; now rewrite H).
+    rewrite Ec, (factor_ext (dimof e) (dimof e')) by (intros; apply Ed). reflexivity.
+  Qed.
+
+  (** a rate expressed per unit [e] times the non-dimensional length of one such
+      unit is the bare number: nondim(p / e) * nondim(1 e) = p  (orbital rates:
+      2 pi / day times one day is a full turn) *)
+  Theorem rate_times_period p e : nondim p (upow e (-1)) * nondim 1 e = p.
+  Proof.
+    rewrite <- nondim_mul.
+    rewrite (nondim_ext _ (umul (upow e (-1)) e) uone) by (intros j Hj; unfold umul, upow, uone; lia).
+    rewrite nondim_dimensionless. ring.
+  Qed.
+
   (** the ValueError branch: a result is produced exactly when every dimension
       of the unit with non-zero exponent has a scale *)
   Lemma covers_spec has k d :
@@ -377,3 +395,73 @@ Section Algebra.
     - discriminate.
   Qed.
 End Algebra.
+
+(** Phase reduction [x - floor(x/p) * p] over the reals ([Zfloor] of Flocq). *)
+From Coq Require Import Reals Lra.
+From Flocq Require Import Raux.
+From Dino Require Import Base.Inst.
+
+Section PhaseR.
+  Local Open Scope R_scope.
+  Notation reduceR := (@reduce R ROps Zfloor).
+  Notation phaseR := (@phase_at R ROps Zfloor).
+
+  Lemma reduceR_eq p x : reduceR p x = x - IZR (Zfloor (x / p)) * p.
+  Proof. reflexivity. Qed.
+
+  Theorem phase_reduced p x : 0 < p ->
+    0 <= reduceR p x < p /\ exists k : Z, reduceR p x = x - IZR k * p.
+  Proof.
+    intros Hp. rewrite reduceR_eq. split; [|now exists (Zfloor (x / p))].
+    pose proof (Zfloor_lb (x / p)) as H1. pose proof (Zfloor_ub (x / p)) as H2.
+    set (k := IZR (Zfloor (x / p))) in *.
+    assert (E : x = x / p * p) by (field; lra).
+    split.
+    - assert (k * p <= x / p * p) by (apply Rmult_le_compat_r; lra). lra.
+    - assert (x / p * p < (k + 1) * p) by (apply Rmult_lt_compat_r; lra). lra.
+  Qed.
+
+  (** the reduced phase is the only representative of x modulo p in [0, p) *)
+  Theorem phase_unique p x y (k : Z) : 0 < p -> 0 <= y < p -> x - y = IZR k * p -> y = reduceR p x.
+  Proof.
+    intros Hp Hy E. rewrite reduceR_eq.
+    assert (F : Zfloor (x / p) = k).
+    { apply Zfloor_imp. rewrite plus_IZR. simpl.
+      replace (x / p) with (IZR k + y / p) by (replace x with (y + IZR k * p) by lra; field; lra).
+      assert (0 <= y / p < 1).
+      { split; [apply Rmult_le_pos; [lra | left; now apply Rinv_0_lt_compat]|].
+        apply Rmult_lt_reg_r with p; [exact Hp|]. replace (y / p * p) with y by (field; lra). lra. }
+      lra. }
+    rewrite F. lra.
+  Qed.
+
+  Theorem phase_period p x (k : Z) : 0 < p -> reduceR p (x + IZR k * p) = reduceR p x.
+  Proof.
+    intros Hp. symmetry.
+    destruct (phase_reduced p x Hp) as (Hr & k0 & Ek).
+    apply (phase_unique p (x + IZR k * p) (reduceR p x) (k0 + k) Hp Hr).
+    rewrite plus_IZR, Ek. ring.
+  Qed.
+
+  (** [time_to_orbital_time]: advancing the time by dt advances the phase by
+      rate * dt, modulo the period *)
+  Theorem phase_advance p ref rate t dt : 0 < p ->
+    phaseR p ref rate (t + dt) = reduceR p (phaseR p ref rate t + rate * dt).
+  Proof.
+    intros Hp. unfold phase_at.
+    destruct (phase_reduced p (@fadd R ROps ref (@fmul R ROps rate t)) Hp) as (_ & k & Ek).
+    rewrite Ek. cbn [fadd fmul ROps].
+    replace (ref + rate * t - IZR k * p + rate * dt) with (ref + rate * (t + dt) + IZR (- k) * p)
+      by (rewrite opp_IZR; ring).
+    now rewrite phase_period.
+  Qed.
+
+  (** elapsed time of one full period (rate * dt = k * p) returns the same phase *)
+  Theorem phase_full_turns p ref rate t dt (k : Z) : 0 < p -> rate * dt = IZR k * p ->
+    phaseR p ref rate (t + dt) = phaseR p ref rate t.
+  Proof.
+    intros Hp E. unfold phase_at. cbn [fadd fmul ROps].
+    replace (ref + rate * (t + dt)) with (ref + rate * t + IZR k * p) by (rewrite <- E; ring).
+    now apply phase_period.
+  Qed.
+End PhaseR.
